@@ -67,7 +67,9 @@ func c18Cases() []chainCase {
 		name   string
 		blocks []BlockSpec
 	}
-	pres := []pre{{"fresh", nil}, {"after-a-send", []BlockSpec{blk(tx("send", "A1", "to", "A3", "amount", "50000"))}}, {"after-receiving-into-new-account", []BlockSpec{blk(tx("send", "A1", "to", "NEW", "amount", "30000"))}}}
+	pres := []pre{{"fresh", nil}, {"after-a-send", []BlockSpec{blk(tx("send", "A1", "to", "A3", "amount", "50000"))}}, {"after-receiving-into-new-account", []BlockSpec{blk(tx("send", "A1", "to", "NEW", "amount", "30000"))}},
+		// the new account holds exactly one fee: paying the fee empties it before the message runs
+		{"new-account-holds-exactly-the-fee", []BlockSpec{blk(tx("send", "A1", "to", "NEW", "amount", "10000"))}}}
 	senders := []string{"A1", "A3", "NEW"}
 	recips := []string{"A2", "NEW", "SELF", "module:staked_tokens_pool", "X"}
 	// amounts relative to the sender's balance B and the fee F
@@ -196,7 +198,7 @@ func c18All() []chainCase {
 func init() {
 	register(&Check{ID: "C18", QuickBud: 110 * time.Second, ThorBud: 20 * time.Minute,
 		Run: func(c *ev.Ctx) {
-			c.Rule = "every send over 3 pre-states x 3 senders (rich, exactly fee+1, freshly created/non-existent) x 5 recipients (existing, new, self, module account, never-seen; from the fresh state also addresses of 21 and 19 bytes that extend or truncate an existing account's address) x 7 amounts (1, balance-fee-1, balance-fee, balance-fee+1, balance, balance+1, fee) executed in a block of the real application and compared with a reference replica whose last block is empty: the balance changes of ALL accounts must be exactly {sender -amount-fee, recipient +amount, fee collector +fee} on success, {sender -fee, fee collector +fee} when the amount cannot be covered, and nothing (identical app hash) when the transaction is rejected before or during authentication; supply invariant and canonical, non-negative balances on every final state"
+			c.Rule = "every send over 4 pre-states x 3 senders (rich, exactly fee+1, freshly created/non-existent/holding exactly the fee) x 5 recipients (existing, new, self, module account, never-seen; from the fresh state also addresses of 21 and 19 bytes that extend or truncate an existing account's address) x 7 amounts (1, balance-fee-1, balance-fee, balance-fee+1, balance, balance+1, fee) executed in a block of the real application and compared with a reference replica whose last block is empty: the balance changes of ALL accounts must be exactly {sender -amount-fee, recipient +amount, fee collector +fee} on success, {sender -fee, fee collector +fee} when the amount cannot be covered, and nothing (identical app hash) when the transaction is rejected before or during authentication; supply invariant and canonical, non-negative balances on every final state"
 			runChainCases(c, "transfer", c18All())
 			getPool().Close()
 		},
